@@ -13,10 +13,11 @@ RULE = ("(ref, query, k) cases are executed on symdel(seqs2=), nearest_neighbor(
 ASSUMPTIONS = ["an index object may change its internal state on look-ups (e.g. memoisation); only the answers are judged, and the BFS expands every new canonical state (all instance attributes, contents included) up to the depth bound",
                "LookupDB enumerates the 20-letter edit ball: k<=2 only for short strings (cost), k=3 only on U(AC,1)",
                "index state = (variant_dict / seq_dict contents, seqs, max_edits); other attributes do not exist on these classes (checked: vars())"]
-REQUIRED_CLASSES = {"all": ["q-equals-r-position-hit", "identical-sequence-d0", "duplicate-in-ref", "duplicate-in-query", "history-step", "same-object-both-sides", "history-changes-max_edits", "progress-option"]}
+REQUIRED_CLASSES = {"all": ["q-equals-r-position-hit", "identical-sequence-d0", "duplicate-in-ref", "duplicate-in-query", "history-step", "same-object-both-sides", "history-changes-max_edits", "progress-option", "max_custom_distance-without-custom-distance", "history-with-failed-lookup"]}
 MIN_OUTCOMES = 10
 
 ENG = ("symdel2", "nn2", "SymdelDB", "LookupDB")
+MAXCD = ("symdel2-maxcd", "SymdelDB-maxcd", "LookupDB-maxcd")     # max_custom_distance without a custom distance: documented as ignored
 PROGRESS = ("symdel2-progress", "SymdelDB-progress", "LookupDB-progress")      # progress bar on (tqdm silenced by TQDM_DISABLE)
 SAME = ("symdel2-same-object", "nn2-same-object")   # the very same list object passed as both collections
 
@@ -41,18 +42,25 @@ def run_engine(acc, eng, ref, query, k):
         return acc.call(lambda: SymdelDB(list(ref), k).lookup(list(query), progress=True))
     if eng == "LookupDB-progress":
         return acc.call(lambda: LookupDB(list(ref)).lookup(list(query), max_edits=k, progress=True))
+    if eng == "symdel2-maxcd":
+        return acc.call(pyrepseq.symdel, list(ref), k, seqs2=list(query), max_custom_distance=k - 1)
+    if eng == "SymdelDB-maxcd":
+        return acc.call(lambda: SymdelDB(list(ref), k).lookup(list(query), max_custom_distance=0))
+    if eng == "LookupDB-maxcd":
+        return acc.call(lambda: LookupDB(list(ref)).lookup(list(query), max_edits=k, max_custom_distance=0.5))
     if eng == "symdel2-progress":
         return acc.call(pyrepseq.symdel, list(ref), k, seqs2=list(query), progress=True)
     raise HarnessError(eng)
 
 
-QUERIES = (("A",), ("AC", "A"), ("C", "C", ""), ("CA", "AA", "AC"), ("",), ("CC", "A"))
+QUERIES = (("A",), ("AC", "A"), ("C", "C", ""), ("CA", "AA", "AC"), ("",), ("CC", "A"), ("AC", None, "A"))
+BAD_QUERY = 6      # a look-up that fails midway (non-string after one good query): later look-ups must be unaffected
 REFS = (("A", "AC", "CA"), ("", "A", "A", "CC"), ("AC",), ("CA", "AC", "AA", "C", ""))
 
 
 # look-up operations on a live index: (query list, mode, max_edits of this look-up; 0 = the index's own, SymdelDB fixes it at build time)
-OPS = {"SymdelDB": [(qi, mode, 0) for qi in range(6) for mode in ("lev", "hamming")],
-       "LookupDB": [(qi, mode, kk) for qi in range(6) for mode in ("lev", "hamming") for kk in (1, 2)]}
+OPS = {"SymdelDB": [(qi, mode, 0) for qi in range(6) for mode in ("lev", "hamming")] + [(BAD_QUERY, "lev", 0)],
+       "LookupDB": [(qi, mode, kk) for qi in range(6) for mode in ("lev", "hamming") for kk in (1, 2)] + [(BAD_QUERY, "lev", 1)]}
 
 
 def spaces(tier):
@@ -175,6 +183,14 @@ def _step_check(acc, case, kind, db, ref, k, op, canon0):
         k = kop
     query = QUERIES[qi]
     acc.cls("history-step")
+    if qi == BAD_QUERY:
+        acc.cls("history-with-failed-lookup")
+        res = _lookup(acc, kind, db, query, k, mode)
+        if not raised(res):
+            acc.fail("%s/history/non-string-query-accepted" % kind, case, "an exception", digest(res))
+            return False
+        acc.ok((kind, "failed-lookup", res.type))
+        return True
     res = _lookup(acc, kind, db, query, k, mode)
     expected = neighbors_within(list(ref), k, queries=list(query), dist="lev" if mode == "lev" else "hamming")
     bad = diagnose(res, expected, self_mode=False)
@@ -215,11 +231,13 @@ def check_case(case, acc):
         for k in (1, 2, 3):
             expected = neighbors_within(list(ref), k, queries=list(query))
             _classes(acc, ref, query, expected)
-            for eng in ENG + (SAME if tuple(ref) == tuple(query) else ()) + (PROGRESS if k == 1 else ()):
+            for eng in ENG + (SAME if tuple(ref) == tuple(query) else ()) + (PROGRESS if k == 1 else ()) + (MAXCD if k <= 2 else ()):
                 if eng.startswith("LookupDB") and k == 3:
                     continue
                 if eng in PROGRESS:
                     acc.cls("progress-option")
+                if eng in MAXCD:
+                    acc.cls("max_custom_distance-without-custom-distance")
                 if eng in SAME:
                     acc.cls("same-object-both-sides")
                 _compare(acc, ("rq1", ref, query, k, eng), eng, ref, query, k, run_engine(acc, eng, ref, query, k), expected)
@@ -242,7 +260,7 @@ def check_case(case, acc):
         def build(hist):
             db = _mk(dbk, ref, k or 1)
             for qi, mode, kop in hist:
-                _lookup(acc, dbk, db, QUERIES[qi], kop or k, mode)
+                _lookup(acc, dbk, db, QUERIES[qi], kop or k, mode)     # failing look-ups are part of a history
             return db
         c0 = canon_db(build(()))
         seen = {c0}
